@@ -117,4 +117,9 @@ if __name__ == "__main__":
     elif sys.argv[1] == "runall":
         for n in sorted(os.listdir(os.path.join(VERIF, "seeded"))):
             if os.path.exists(os.path.join(VERIF, "seeded", n, "patch.diff")):
-                run(n)
+                try:
+                    run(n)
+                except AssertionError as e:
+                    # the patch no longer applies (a fix: commit touched the same lines): to be re-based by hand
+                    print(n, "PATCH-DOES-NOT-APPLY", str(e).splitlines()[0][:160])
+                    sh(["git", "-C", REPO, "checkout", "--", "."])
